@@ -698,3 +698,22 @@ fn c26_vector_component_order_inverse() {
     }
 }
 }
+
+stubs! {
+//@ props=C26 kind=proof tier=manual timeout=3000
+/// JSON number keys: decode_key(encode_json(Number(x))) returns the same bits for every non-NaN f64 —
+/// including -0.0 — and consumes exactly the 9 bytes written
+#[kani::proof]
+#[kani::unwind(4)]
+fn c26_json_number_inverse() {
+    let x: f64 = kani::any();
+    kani::assume(!x.is_nan());
+    let mut a = FixBuf::new();
+    encode_json(&JsonValue::Number(x), &mut a);
+    pin(&mut a, type_prefix::JSON_NUMBER, 9);
+    match vs::is_ok_forget(decode_key(&a.b[..9])) {
+        Some((DecodedKey::Json(DecodedJson::Number(v)), k)) => assert!(k == 9 && v.to_bits() == x.to_bits()),
+        _ => assert!(false),
+    }
+}
+}
